@@ -1045,6 +1045,13 @@ impl SubRule {
         let mut res_word = word.clone();
         let mut pos = pos;
         for state in &self.output {
+            if let ParseElement::SyllBound | ParseElement::Syllable(..) | ParseElement::Structure(..) = &state.kind {
+                // the end of a non-final syllable is the same place as the start of the next one (otherwise an empty syllable is split off)
+                if pos.syll_index + 1 < res_word.syllables.len() && pos.seg_index >= res_word.syllables[pos.syll_index].segments.len() {
+                    pos.syll_index += 1;
+                    pos.seg_index = 0;
+                }
+            }
             match &state.kind {
                 ParseElement::Ipa(seg, mods) => {
                     if let Some(syll) = res_word.syllables.get_mut(pos.syll_index) { 
@@ -1742,6 +1749,13 @@ impl SubRule {
         let mut pos = last_pos;
         if self.output.len() > self.input.len() {
             for z in self.output.iter().skip(self.input.len()) {
+                if let ParseElement::SyllBound | ParseElement::Syllable(..) | ParseElement::Structure(..) = &z.kind {
+                    // the end of a non-final syllable is the same place as the start of the next one (otherwise an empty syllable is split off)
+                    if pos.syll_index + 1 < res_word.syllables.len() && pos.seg_index >= res_word.syllables[pos.syll_index].segments.len() {
+                        pos.syll_index += 1;
+                        pos.seg_index = 0;
+                    }
+                }
                 match &z.kind {
                     ParseElement::Ipa(seg, mods) => {
                         if let Some(syll) = res_word.syllables.get_mut(pos.syll_index) { 
